@@ -113,6 +113,16 @@ func normSeq(ns []*snode) []*snode {
 	for _, n := range ns {
 		switch n.kind {
 		case "slot":
+			// a prefix clamped to a constant, x[:min(len(x), K)], is the two-way choice "K bytes when longer, else all"
+			if k, rest, ok := clampSlot(n.text); ok {
+				a := []*snode{{kind: "slot", text: normSlot(k + rest)}}
+				b := []*snode{{kind: "slot", text: normSlot("var" + strings.Replace(rest, "~cut(var)", "", 1))}}
+				if renderSchema(a) > renderSchema(b) {
+					a, b = b, a
+				}
+				out = append(out, &snode{kind: "alt", a: a, b: b})
+				continue
+			}
 			out = append(out, &snode{kind: "slot", text: normSlot(n.text)})
 		case "loop":
 			body := normSeq(n.a)
@@ -470,4 +480,40 @@ func normSlot(t string) string {
 		rest = rest[:j+1]
 	}
 	return w + ":" + normField(rest) + x
+}
+
+// clampSlot: "var(const:K|len(F))<rest>" with <rest> ending in ~cut(var) → (K, rest)
+func clampSlot(t string) (string, string, bool) {
+	const p = "var(const:"
+	if !strings.HasPrefix(t, p) {
+		return "", "", false
+	}
+	j := len(p)
+	k := j
+	for k < len(t) && t[k] >= '0' && t[k] <= '9' {
+		k++
+	}
+	if k == j || !strings.HasPrefix(t[k:], "|len(") {
+		return "", "", false
+	}
+	// matching parenthesis of var(
+	depth, end := 0, -1
+	for i := 3; i < len(t); i++ {
+		switch t[i] {
+		case '(':
+			depth++
+		case ')':
+			depth--
+			if depth == 0 {
+				end = i
+			}
+		}
+		if end >= 0 {
+			break
+		}
+	}
+	if end < 0 || !strings.Contains(t[end+1:], "~cut(var)") {
+		return "", "", false
+	}
+	return t[j:k], t[end+1:], true
 }
